@@ -183,7 +183,7 @@ theorem cert_fill3 :
       refine hF2.mono_mem ?_
       intro pf hpf f ⟨hl, ha⟩
       obtain ⟨ty, hty⟩ := nodeFilters_left S post fields pf hpf
-      exact ⟨⟨ty, by rw [hl, hty]⟩, ha.mono fun t r hr => refOK_vertex hfresh hr⟩
+      exact ⟨⟨ty, by rw [hl]; exact hty⟩, ha.mono fun t r hr => refOK_vertex hfresh hr⟩
     obtain ⟨ss, hcert, hrf⟩ := ih W miss (L ++ [.vtx vid]) Rest AE he htab hc hfields
       (by simpa [treeOutputNames] using hon) h0 (by simp)
       (by rw [hV]; rfl) (by rw [hA']; simp)
@@ -227,9 +227,422 @@ theorem cert_fill3 :
         List.append_assoc]
       exact List.Perm.append_left _ hrf.outsP
   · -- fold
-    sorry
+    intro path vid ty n params fds child rest st ed ps accIn st2 comp evs st3 post evPost st4 st5 accR
+      st' h1 h2 h3 h4 h5 h6 h7 ihC ihR W miss L Rest AE he htab hc hh hon h0 hvL hvS hA htbl hftbl hv hf
+      hTs
+    simp only [hyps3Fields, hS, h1, h2, Bool.and_eq_true] at hh
+    obtain ⟨⟨⟨hpar, _⟩, ⟨hguard, hvars⟩, hchild⟩, hrest⟩ := hh
+    have b1 : st.bump.nextVid = st.nextVid + 1 := rfl
+    have b2 : st.bump.nextEid = st.nextEid + 1 := rfl
+    have hs := (size_fill S).1 _ _ _ _ _ _ _ h3
+    rw [b1] at hs
+    have kC := (keys_fill3 S).1 _ _ _ _ _ _ _ h3 (by rw [b1, b2, h0])
+    rw [b1] at kC
+    have cC := (counted S).1 _ _ _ _ _ _ _ h3
+    rw [b2] at cC
+    obtain ⟨vs, ev', hmk, hcomp, _⟩ := finishComponent_inv h4
+    obtain ⟨_, _, hcore⟩ := allVids_finish h4
+    have c34 := resolveFilters_core h5
+    obtain ⟨hv5, he5, _, ht5⟩ := registerTags_inv h6
+    have hn5 : st5.nextVid = st.nextVid + 1 + size child := by rw [hv5, ← c34.1, ← hcore.1, hs]
+    have hne5 : st5.nextEid = st2.nextEid := by rw [he5, ← c34.2.1, ← hcore.2.1]
+    have h05 : st5.nextVid = st5.nextEid + 1 := by rw [hn5, hne5, ← hs]; exact kC.sync
+    have cR := (counted S).2 _ _ _ _ _ _ _ h7
+    rw [hne5] at cR
+    have hveid : st.nextVid - 1 = st.nextEid := by simp only [Vid, Eid] at *; omega
+    have hev : evsFields (.edge n params (.fold fds) child :: rest) st.nextVid =
+        Ev.fold st.nextEid :: evsFields rest (st.nextVid + 1 + size child) := by
+      simp [evsFields, hveid]
+    have hft : ftblFields (.edge n params (.fold fds) child :: rest) st.nextVid =
+        (st.nextEid, fds, child) :: (ftblNode child (st.nextVid + 1) ++
+          ftblFields rest (st.nextVid + 1 + size child)) := by
+      simp [ftblFields, hveid]
+    have hfon : fieldsOutputNames (.edge n params (.fold fds) child :: rest) =
+        countOutputNames fds ++ treeOutputNames child ++ fieldsOutputNames rest := rfl
+    rw [hfon, countOutputNames_eq] at hon
+    rw [hev] at hA
+    -- tags known so far are in the table
+    have hT5 : ∀ e ∈ st5.tags, e ∈ T := fun e he' => hTs e ((tags_mono S).2 _ _ _ _ _ _ _ h7 e he')
+    have hT4 : ∀ e ∈ st4.tags, e ∈ T := fun e he' => hT5 e (by rw [ht5]; exact List.mem_append_left _ he')
+    have hT3 : ∀ e ∈ st3.tags, e ∈ T := fun e he' => hT4 e (by rw [← c34.2.2]; exact he')
+    have hT2 : ∀ e ∈ st2.tags, e ∈ T := fun e he' => hT3 e (by rw [← hcore.2.2]; exact he')
+    -- the fold
+    obtain ⟨F, hF⟩ : ∃ F, F = mkFold path vid st n ps comp evs fds post := ⟨_, rfl⟩
+    have hFeid : F.eid = st.nextEid := by rw [hF]; rfl
+    have hFto : F.toVid = st.nextVid := by rw [hF]; rfl
+    have hFcomp : F.component = comp := by rw [hF]; rfl
+    have hFpost : F.post = post := by rw [hF]; rfl
+    have hFfouts : F.fouts = countOutputs fds := by rw [hF]; rfl
+    have hFmem : F ∈ W.comp.folds := hf F (by rw [hF]; simp)
+    obtain ⟨himp, hnoimpIn⟩ := noImportsF_mem (noImportsC_folds hc.noimp) hFmem
+    have hwfF := wfTagsC_fold hc.wft hFmem
+    rw [himp] at hwfF
+    obtain ⟨hfkF, hfkIn⟩ := FKAllF_mem hc.fk hFmem
+    have hWi : (W.inner F).comp = comp := hFcomp
+    have hcv : comp.vertices = vs := by rw [hcomp]; rfl
+    have hce : comp.edges = accIn.edges := by rw [hcomp]; rfl
+    have hcf : comp.folds = accIn.folds := by rw [hcomp]; rfl
+    have hco : comp.outputs = sortOutputs accIn.outs := by rw [hcomp]; rfl
+    have hcr : comp.root = st.nextVid := by rw [hcomp]; rfl
+    have hsortedIn := evsNode_sorted child st.nextVid (st.nextVid + 1) (by simp only [Vid] at *; omega)
+    have hndIn : (evsNode child st.nextVid (st.nextVid + 1)).Nodup := nodup_of_sorted_evVid hsortedIn
+    have vsk : vs.map (·.vid) = vtxs (evsNode child st.nextVid (st.nextVid + 1)) := by
+      rw [(makeVertices_inv hmk).2]; exact kC.verts
+    have hndv : (vs.map (·.vid)).Nodup := by rw [vsk]; exact vtxs_nodup hndIn
+    have hvIn : ∀ w, ((W.inner F).comp.vertex? w).isSome →
+        Ev.vtx w ∈ evsNode child st.nextVid (st.nextVid + 1) := by
+      intro w hw
+      rw [hWi] at hw
+      obtain ⟨V, hV⟩ := Option.isSome_iff_exists.1 hw
+      have hVm : V ∈ vs := by rw [← hcv]; exact List.mem_of_find?_eq_some hV
+      have hVv : V.vid = w := by
+        have := List.find?_some hV; simpa using this
+      apply mem_vtxs.1
+      rw [← vsk, ← hVv]
+      exact List.mem_map.2 ⟨V, hVm, rfl⟩
+    have hcIn : CompOK (W.inner F) (evsNode child st.nextVid (st.nextVid + 1)) := by
+      refine ⟨by rw [hWi, ← hFcomp]; simpa using hwfF.2, by rw [hWi, ← hFcomp]; exact hnoimpIn,
+        hsortedIn, hvIn, ?_, by rw [hWi, ← hFcomp]; exact hfkIn⟩
+      intro f' hf'
+      rw [hWi, hcf] at hf'
+      refine ⟨?_, kC.foldTo f' hf'⟩
+      apply mem_flds.1
+      rw [← kC.folds]
+      exact List.mem_map.2 ⟨f', hf', rfl⟩
+    have hvInHV : HV (W.inner F) T (path ++ [st.nextVid]) accIn.verts := by
+      intro r' hr'
+      obtain ⟨fs', ev'', stX, stY, hTX, hres, hmem⟩ := makeVertices_mem hmk r' hr'
+      refine ⟨fs', ev'', stX, stY, fun e he' => hT2 e (by rw [← hTX]; exact he'), hres, ?_⟩
+      rw [hWi]
+      show comp.vertices.find? _ = _
+      rw [hcv]
+      exact find?_vertex_of_mem (V := ⟨r'.vid, r'.typeName, r'.coercedFrom, fs'⟩) hndv hmem
+    have htabIn : TablesOK (W.inner F) tbl ftbl := ⟨htab.tg, htab.ft⟩
+    obtain ⟨ssIn, hcertIn, hrfIn⟩ := ihC (W.inner F) false [] [] _ ⟨he.d, he.a, he.e⟩ htabIn hcIn hchild
+      (List.nodup_append.1 (List.nodup_append.1 hon).1).2.1 (by rw [b1, b2, h0]) (by rw [b1]; simp)
+      (fun p hp => htbl p (by
+        simp only [tblFields, List.mem_append]; exact Or.inl (by simpa [b1] using hp)))
+      (fun p hp => hftbl p (by
+        rw [hft]; exact List.mem_cons_of_mem _ (List.mem_append_left _ (by simpa [b1] using hp))))
+      hvInHV (fun f' hf' => by rw [hWi, hcf]; exact hf') hT2
+    rw [b1, b2] at hrfIn
+    rw [b1] at hcertIn
+    have hevC : evsNode child st.nextVid (st.nextVid + 1) =
+        Ev.vtx st.nextVid :: evsFields (nodeFields child) (st.nextVid + 1) := by
+      cases child; rfl
+    -- the table entries of the fold
+    have hftE := htab.ft st.nextEid fds child (hftbl _ (by rw [hft]; exact List.mem_cons_self ..))
+    have hOGv : W.OG st.nextVid = outPairs (nodeFields child) := by
+      have := htbl (st.nextVid, nodeFields child) (by
+        simp only [tblFields, List.mem_append]; left; cases child; simp [tblNode, nodeFields])
+      exact (htab.tg _ _ this).2
+    have honIn : (outNamesL (W.inner F) (evsNode child st.nextVid (st.nextVid + 1))).Perm
+        (outNames child) :=
+      outNamesL_node (W.inner F) tbl ftbl htabIn child st.nextVid (st.nextVid + 1)
+        (fun p hp => htbl p (by simp only [tblFields, List.mem_append]; exact Or.inl hp))
+        (fun p hp => hftbl p (by
+          rw [hft]; exact List.mem_cons_of_mem _ (List.mem_append_left _ hp)))
+    have honInNd : (outNamesL (W.inner F) (evsNode child st.nextVid (st.nextVid + 1))).Nodup := by
+      refine honIn.nodup_iff.2 ?_
+      rw [outNames_eq_tree]
+      exact (List.nodup_append.1 (List.nodup_append.1 hon).1).2.1
+    -- outputs of the fold's component
+    have hInOuts : (accIn.outs.map fun o => (o.name, o.vid, o.field)).Perm
+        (outTriples (W.inner F) (vtxs (evsNode child st.nextVid (st.nextVid + 1)))) := by
+      rw [hevC, vtxs_cons_vtx, outTriples_cons]
+      have : (W.inner F).OG st.nextVid = outPairs (nodeFields child) := hOGv
+      rw [this]; exact hrfIn.outsP
+    have hcoPerm : ((W.inner F).comp.outputs.map fun o => (o.name, o.vid, o.field)).Perm
+        (outTriples (W.inner F) (vtxs (evsNode child st.nextVid (st.nextVid + 1)))) := by
+      rw [hWi, hco]
+      exact ((sortOutputs_perm accIn.outs).map _).trans hInOuts
+    have houtsIn : OutsOK (W.inner F) (vtxs (evsNode child st.nextVid (st.nextVid + 1))) := by
+      refine ⟨hcoPerm, ?_, ?_⟩
+      · have := (hcoPerm.map (·.1)).nodup_iff.2 (outTriples_names_nodup (W.inner F) _ honInNd)
+        simpa [Function.comp_def] using this
+      · intro o ho
+        have hm := hcoPerm.mem_iff.1 (List.mem_map.2 ⟨o, ho, rfl⟩)
+        simp only [outTriples, List.mem_flatMap, List.mem_map] at hm
+        obtain ⟨w, hw, p, _, hpe⟩ := hm
+        simp only [Prod.mk.injEq] at hpe
+        have hwv : o.vid ∈ vtxs (evsNode child st.nextVid (st.nextVid + 1)) := by rw [← hpe.2.1]; exact hw
+        refine ⟨?_, hwv⟩
+        rw [hWi]
+        rw [← vsk] at hwv
+        obtain ⟨V, hVm, hVv⟩ := List.mem_map.1 hwv
+        show (comp.vertices.find? _).isSome
+        rw [hcv, List.find?_isSome]
+        exact ⟨V, hVm, by simp [hVv]⟩
+    have hnestedIn : (flds (evsNode child st.nextVid (st.nextVid + 1))).flatMap W.FK =
+        nestedKeys F.component := by
+      rw [nestedKeys_eq_flatMap, hFcomp, hcf, ← kC.folds, List.flatMap_map]
+      apply flatMap_congr'
+      intro f' hf'
+      exact (FKAllF_mem hfkIn (by rw [hFcomp, hcf]; exact hf')).1
+    have hkeysIn : KeysOK (W.inner F) (evsNode child st.nextVid (st.nextVid + 1)) := by
+      intro e' he'
+      rw [← kC.folds] at he'
+      obtain ⟨f', hf', rfl⟩ := List.mem_map.1 he'
+      have := hrfIn.keysOK f' hf'
+      have hfk' := (FKAllF_mem hfkIn (by rw [hFcomp, hcf]; exact hf')).1
+      show ((W.FK f'.eid).map (·.2)).Perm _
+      rw [hfk']; exact this
+    -- the fold's own keys
+    have hfoutsP : F.fouts.Perm (countOutNames fds) := by
+      rw [hFfouts]
+      exact countOutputs_perm fds (List.nodup_append.1 (List.nodup_append.1 hon).1).1
+    have hkeysF : ((foldKeys F).map (·.2)).Perm (W.CO F.eid ++ W.ON F.eid) := by
+      rw [hFeid, hftE.2.1, hftE.2.2.1]
+      simp only [foldKeys, List.map_append, List.map_map, Function.comp_def, List.map_id']
+      rw [List.append_assoc]
+      refine hfoutsP.append ?_
+      -- the component's own output names and the nested keys' names: every output name below
+      refine List.Perm.trans ?_ honIn
+      refine List.Perm.trans ?_ (flatMap_events_perm (evOutNames (W.inner F)) _).symm
+      refine List.Perm.append ?_ ?_
+      · have := hcoPerm.map (·.1)
+        rw [hWi] at this
+        simpa [outTriples, List.map_flatMap, evOutNames, Function.comp_def, hFcomp] using this
+      · rw [← hnestedIn, List.map_flatMap]
+        have : ∀ l : List Eid, (∀ e' ∈ l, ((W.FK e').map (·.2)).Perm (W.CO e' ++ W.ON e')) →
+            (l.flatMap fun e' => (W.FK e').map (·.2)).Perm
+              (l.flatMap fun e' => evOutNames (W.inner F) (.fold e')) := by
+          intro l hl
+          induction l with
+          | nil => exact List.Perm.refl _
+          | cons e' rest' ih' =>
+            simp only [List.flatMap_cons]
+            exact (hl e' (List.mem_cons_self ..)).append
+              (ih' fun e'' he'' => hl e'' (List.mem_cons_of_mem _ he''))
+        exact this _ hkeysIn
+    -- post-filters
+    have hAF : AE = L ++ Ev.fold st.nextEid :: (evsFields rest (st.nextVid + 1 + size child) ++ Rest) := by
+      rw [hA]; simp
+    have hpostF2 := resolveFilters_ArgOK H W he hT htab hc hAF (cur := .fold st.nextEid)
+      (useVid := st.nextVid) (by simp only [evVid]; exact h0.symm) h5 hT3
+      (fun flt hflt r hr => by
+        have := hwfF.1
+        rw [hFto, hFpost] at this
+        exact tagsOkAt_tag this hflt hr)
+      (countFilters_vars H fds hvars)
+    have hpostOK : Forall2 (fun p flt => ArgOK W (TRefPost W vid L F.eid) p.1 p.2 flt)
+        (countFilterPairs fds) F.post := by
+      rw [hFpost, hFeid]
+      rw [countFilters_eq_map] at hpostF2
+      refine (Forall2.unmap_left hpostF2).mono ?_
+      intro p flt ⟨_, ha⟩
+      exact ha.mono fun t r hr => refOK_post hr
+    have hguardF : F.post = [] ∨ miss = false := by
+      rw [hFpost]
+      simp only [Bool.or_eq_true] at hguard
+      rcases hguard with hg | hg
+      · left
+        have := countFilters_nil_of_none fds hg
+        rw [this] at h5
+        exact resolveFilters_nil_out h5
+      · right; simpa using hg
+    have hmergeIn : mergeStages F.component.edges F.component.folds
+        (F.component.edges.length + F.component.folds.length) = .ok ssIn := by
+      rw [hFcomp, hce, hcf, ← hrfIn.edges, ← hrfIn.folds]
+      exact mergeStages_of_sorted ssIn _ hrfIn.sortedE (by rw [length_filterMap_split]; exact Nat.le_refl _)
+    have hitIn : (deepTagNames (W.inner F) (evsNode child st.nextVid (st.nextVid + 1))).Perm
+        (W.IT F.eid) := by
+      rw [hFeid, hftE.2.2.2,
+        deepTagNames_node (W.inner F) tbl ftbl htabIn child st.nextVid (st.nextVid + 1)
+          (fun p hp => htbl p (by simp only [tblFields, List.mem_append]; exact Or.inl hp))
+          (fun p hp => hftbl p (by
+            rw [hft]; exact List.mem_cons_of_mem _ (List.mem_append_left _ hp)))]
+    have facts : FoldFacts W miss n params fds child vid L F ssIn
+        (evsNode child st.nextVid (st.nextVid + 1)) :=
+      { from_ := by rw [hF]; rfl
+        fromV := hvS
+        inComp := by rw [List.any_eq_true]; exact ⟨F, hFmem, by simp⟩
+        name := by rw [hF]; rfl
+        params := by
+          have : F.params = ps := by rw [hF]; rfl
+          rw [this]; exact paramsAgreeB_sound H W he.d he.a he.e n params ps hpar
+        imports := himp
+        ct := by rw [hFeid]; exact hftE.1
+        co := by rw [hFeid]; exact hftE.2.1
+        on := by rw [hFeid]; exact hftE.2.2.1
+        fk := hfkF
+        fouts := hfoutsP
+        post := hpostOK
+        guard := hguardF
+        root := by rw [hFcomp, hcr, hFto]
+        merge := hmergeIn
+        outs := houtsIn
+        nested := hnestedIn
+        onPerm := honIn
+        itPerm := hitIn
+        keysIn := hkeysIn
+        toVid := by rw [hFto, hFeid]; exact h0
+        ndIn := nodup_of_sorted hsortedIn }
+    -- the remaining selections
+    obtain ⟨ssR, hcertR, hrfR⟩ := ihR W miss (L ++ [.fold st.nextEid]) Rest AE he htab hc hrest
+      (List.nodup_append.1 hon).2.1 h05 (List.mem_append_left _ hvL) hvS
+      (by rw [hA, hn5]; simp)
+      (fun p hp => htbl p (by
+        simp only [tblFields, List.mem_append]; exact Or.inr (by simpa [hn5] using hp)))
+      (fun p hp => hftbl p (by
+        rw [hft]; exact List.mem_cons_of_mem _ (List.mem_append_right _ (by simpa [hn5] using hp))))
+      (fun r' hr => hv r' (by simpa using hr)) (fun f hf' => hf f (by simp [hf'])) hTs
+    rw [hn5] at hrfR hcertR
+    rw [hne5] at hrfR
+    refine ⟨.fold F :: ssR, ?_, ?_⟩
+    · unfold FieldsCert
+      simp only
+      refine ⟨F, ssR, evsFields rest (st.nextVid + 1 + size child), ssIn,
+        evsNode child st.nextVid (st.nextVid + 1), rfl, by rw [hev, hFeid], facts, ?_, ?_⟩
+      · rw [hFto]; exact hcertIn
+      · rw [hFeid]; exact hcertR
+    · have hb1 := cC.emono
+      have hb2 := cR.emono
+      refine ⟨?_, ?_, ?_, ?_, ?_, ?_, ?_⟩
+      · simp only [List.filterMap_cons, stEdge?, hrfR.edges]
+        simp
+      · simp only [List.filterMap_cons, stFold?, hrfR.folds, hF]
+        simp
+      · rw [hev, hrfR.evsEq]; simp [evOf, hFeid]
+      · simp only [List.map_cons, stEid, hFeid]
+        refine List.pairwise_cons.2 ⟨?_, hrfR.sortedE⟩
+        intro x hx
+        obtain ⟨s', hs', rfl⟩ := List.mem_map.1 hx
+        have := (hrfR.bounds s' hs').1; simp only [Eid] at *; omega
+      · intro s' hs'
+        rcases List.mem_cons.1 hs' with rfl | hs'
+        · simp only [stEid, hFeid, Eid] at *; omega
+        · have := hrfR.bounds s' hs'; simp only [Eid] at *; omega
+      · intro f hf'
+        simp only [Acc.append_folds, List.mem_append, List.mem_singleton] at hf'
+        rcases hf' with hf' | hf'
+        · rw [hf', ← hF]; exact hkeysF
+        · exact hrfR.keysOK f hf'
+      · simp only [Acc.append_outs, List.nil_append, outPairs, hev, vtxs_cons_fold]
+        exact hrfR.outsP
   · -- plain / optional / recursive edge
-    sorry
+    intro path vid ty n params kind child rest st ed ps r accC st2 accR st' hk h1 h2 h3 h4 h5 ihC ihR
+      W miss L Rest AE he htab hc hh hon h0 hvL hvS hA htbl hftbl hv hf hTs
+    simp only [hyps3Fields, hS, h1, h2, Bool.and_eq_true] at hh
+    obtain ⟨⟨⟨hpar, hrecok⟩, hchild0⟩, hrest⟩ := hh
+    have hchild : hyps3Node H (childMiss miss kind) ed.target child = true := by
+      cases kind with
+      | fold fds => exact absurd rfl (hk fds)
+      | plain => simpa [childMiss] using hchild0
+      | optional => simpa [childMiss] using hchild0
+      | recurse d => simpa [childMiss] using hchild0
+    have b1 : st.bump.nextVid = st.nextVid + 1 := rfl
+    have b2 : st.bump.nextEid = st.nextEid + 1 := rfl
+    have hs := (size_fill S).1 _ _ _ _ _ _ _ h4
+    rw [b1] at hs
+    have kC := (keys_fill3 S).1 _ _ _ _ _ _ _ h4 (by rw [b1, b2, h0])
+    have cC := (counted S).1 _ _ _ _ _ _ _ h4
+    have cR := (counted S).2 _ _ _ _ _ _ _ h5
+    rw [b2] at cC
+    have hev : evsFields (.edge n params kind child :: rest) st.nextVid =
+        evsNode child st.nextVid (st.nextVid + 1) ++ evsFields rest (st.nextVid + 1 + size child) := by
+      cases kind with
+      | fold fds => exact absurd rfl (hk fds)
+      | plain => rfl
+      | optional => rfl
+      | recurse d => rfl
+    have hft : ftblFields (.edge n params kind child :: rest) st.nextVid =
+        ftblNode child (st.nextVid + 1) ++ ftblFields rest (st.nextVid + 1 + size child) := by
+      cases kind with
+      | fold fds => exact absurd rfl (hk fds)
+      | plain => rfl
+      | optional => rfl
+      | recurse d => rfl
+    have hfon : fieldsOutputNames (.edge n params kind child :: rest) =
+        treeOutputNames child ++ fieldsOutputNames rest := by
+      cases kind with
+      | fold fds => exact absurd rfl (hk fds)
+      | plain => rfl
+      | optional => rfl
+      | recurse d => rfl
+    rw [hfon] at hon
+    rw [hev] at hA
+    obtain ⟨ssC, hcertC, hrfC⟩ := ihC W (childMiss miss kind) L
+      (evsFields rest (st.nextVid + 1 + size child) ++ Rest) AE he htab hc hchild
+      (List.nodup_append.1 hon).1 (by rw [b1, b2, h0]) (by rw [hA, b1]; simp)
+      (fun p hp => htbl p (by simp only [tblFields, List.mem_append]; exact Or.inl (by simpa [b1] using hp)))
+      (fun p hp => hftbl p (by rw [hft]; exact List.mem_append_left _ (by simpa [b1] using hp)))
+      (fun r' hr => hv r' (by simp [hr])) (fun f hf' => hf f (by simp [hf']))
+      (fun e' he' => hTs e' ((tags_mono S).2 _ _ _ _ _ _ _ h5 e' he'))
+    rw [b1, b2] at hrfC
+    rw [b1] at hcertC
+    obtain ⟨ssR, hcertR, hrfR⟩ := ihR W miss (L ++ evsNode child st.nextVid (st.nextVid + 1)) Rest AE
+      he htab hc hrest (List.nodup_append.1 hon).2.1 kC.sync (List.mem_append_left _ hvL) hvS
+      (by rw [hA, hs]; simp)
+      (fun p hp => htbl p (by
+        simp only [tblFields, List.mem_append]; exact Or.inr (by simpa [hs, Nat.add_assoc] using hp)))
+      (fun p hp => hftbl p (by rw [hft]; exact List.mem_append_right _ (by simpa [hs, Nat.add_assoc] using hp)))
+      (fun r' hr => hv r' (by simp [hr])) (fun f hf' => hf f (by simp [hf'])) hTs
+    rw [hs] at hrfR hcertR
+    have hevC : evsNode child st.nextVid (st.nextVid + 1) =
+        Ev.vtx st.nextVid :: evsFields (nodeFields child) (st.nextVid + 1) := by
+      cases child; rfl
+    refine ⟨.edge ⟨st.nextEid, vid, st.nextVid, n, ps, isOptionalKind kind, r⟩ :: (ssC ++ ssR), ?_, ?_⟩
+    · have hcore : ∃ e ssC' ssR' evsC evsR,
+          Stage.edge ⟨st.nextEid, vid, st.nextVid, n, ps, isOptionalKind kind, r⟩ :: (ssC ++ ssR) =
+            .edge e :: (ssC' ++ ssR') ∧
+          evsFields (.edge n params kind child :: rest) st.nextVid = evsC ++ evsR ∧
+          e.fromVid = vid ∧ (W.comp.vertex? vid).isSome ∧ e.name = n ∧ EdgeKindOK W n params kind e ∧
+          ParamsAgree W n params e.params ∧
+          NodeCert W (childMiss miss kind) child e.toVid L ssC' evsC ∧
+          FieldsCert W miss rest vid (L ++ evsC) ssR' evsR :=
+        ⟨_, ssC, ssR, _, _, rfl, hev, rfl, hvS, rfl,
+          kindIn3_edgeKindOK S H hS W he hk h3 _ _ _ n params ps hrecok,
+          paramsAgreeB_sound H W he.d he.a he.e n params ps hpar, hcertC, hcertR⟩
+      unfold FieldsCert
+      cases kind with
+      | fold fds => exact absurd rfl (hk fds)
+      | plain => exact hcore
+      | optional => exact hcore
+      | recurse d => exact hcore
+    · have hb1 := cC.emono
+      have hb2 := cR.emono
+      refine ⟨?_, ?_, ?_, ?_, ?_, ?_, ?_⟩
+      · simp [List.filterMap_cons, stEdge?, List.filterMap_append, hrfC.edges, hrfR.edges]
+      · simp [List.filterMap_cons, stFold?, List.filterMap_append, hrfC.folds, hrfR.folds]
+      · rw [hev, hevC, hrfC.evsEq, hrfR.evsEq]
+        simp [evOf]
+      · simp only [List.map_cons, List.map_append, stEid]
+        refine List.pairwise_cons.2 ⟨?_, ?_⟩
+        · intro x hx
+          rcases List.mem_append.1 hx with hx | hx
+          · obtain ⟨s', hs', rfl⟩ := List.mem_map.1 hx
+            have := (hrfC.bounds s' hs').1; simp only [Eid] at *; omega
+          · obtain ⟨s', hs', rfl⟩ := List.mem_map.1 hx
+            have := (hrfR.bounds s' hs').1; simp only [Eid] at *; omega
+        · refine List.pairwise_append.2 ⟨hrfC.sortedE, hrfR.sortedE, ?_⟩
+          intro a ha b hb
+          obtain ⟨s1, hs1, rfl⟩ := List.mem_map.1 ha
+          obtain ⟨s2, hs2, rfl⟩ := List.mem_map.1 hb
+          have := (hrfC.bounds s1 hs1).2; have := (hrfR.bounds s2 hs2).1
+          simp only [Eid] at *; omega
+      · intro s' hs'
+        rcases List.mem_cons.1 hs' with rfl | hs'
+        · simp only [stEid, Eid] at *; omega
+        · rcases List.mem_append.1 hs' with hs' | hs'
+          · have := hrfC.bounds s' hs'; simp only [Eid] at *; omega
+          · have := hrfR.bounds s' hs'; simp only [Eid] at *; omega
+      · intro f hf'
+        simp only [Acc.append_folds, List.mem_append] at hf'
+        rcases hf' with (hf' | hf') | hf'
+        · cases hf'
+        · exact hrfC.keysOK f hf'
+        · exact hrfR.keysOK f hf'
+      · have hOG : W.OG st.nextVid = outPairs (nodeFields child) := by
+          have := htbl (st.nextVid, nodeFields child) (by
+            simp only [tblFields, List.mem_append]; left; cases child; simp [tblNode, nodeFields])
+          exact (htab.tg _ _ this).2
+        have hC' : (accC.outs.map fun o => (o.name, o.vid, o.field)).Perm
+            (outTriples W (vtxs (evsNode child st.nextVid (st.nextVid + 1)))) := by
+          rw [hevC, vtxs_cons_vtx, outTriples_cons, hOG]; exact hrfC.outsP
+        simp only [Acc.append_outs, List.nil_append, List.map_append, outPairs, hev, vtxs_append,
+          outTriples_append]
+        exact perm_swap_middle hC' hrfR.outsP
 end
 
 end TF.InterpSpec
